@@ -24,6 +24,18 @@ type (
 	IP       = net.IP
 	TCPAddr  = net.TCPAddr
 	Listener = net.Listener
+	// error and address types code may name without doing any I/O through them
+	DNSError            = net.DNSError
+	AddrError           = net.AddrError
+	ParseError          = net.ParseError
+	UnknownNetworkError = net.UnknownNetworkError
+	InvalidAddrError    = net.InvalidAddrError
+	IPNet               = net.IPNet
+	IPAddr              = net.IPAddr
+	IPMask              = net.IPMask
+	UDPAddr             = net.UDPAddr
+	UnixAddr            = net.UnixAddr
+	HardwareAddr        = net.HardwareAddr
 )
 
 var ErrClosed = net.ErrClosed
